@@ -42,7 +42,7 @@ ASSUMPTIONS = [
     "window size is set through the controller's _window_size attribute and "
     "through SCPConnection.read/write's window_size parameter",
 ]
-FLOORS = {"slow_host_clock": 300, "real_socket_op": 150, "op_checked": 2500, "read_bytes_compared": 500,
+FLOORS = {"megabyte_fill": 30, "slow_host_clock": 300, "real_socket_op": 150, "op_checked": 2500, "read_bytes_compared": 500,
           "write_conservation": 800, "multi_buffer_op": 300,
           "faulty_op": 200, "struct_field": 150, "link_op": 100}
 ANCHORS = [("rig.machine_control.machine_controller", "MachineController.fill",
@@ -57,7 +57,8 @@ BUFS = [16, 120, 128, 242, 243, 248, 255, 256, 499, 504, 512]
 def plan(tier):
     n = 600 if tier == "quick" else 30000
     # real loopback sockets cost wall-clock time per injected loss
-    return [(c, n if c != "real_udp" else n // 10) for c in CLASSES]
+    return [(c, n if c != "real_udp" else n // 10) for c in CLASSES] + \
+        [("bigfill", 32 if tier == "quick" else 1500)]
 
 
 def rdata(rng, n):
@@ -71,7 +72,30 @@ def rdata(rng, n):
     return bytes(rng.getrandbits(8) for _ in range(n))
 
 
+def gen_bigfill(rng):
+    """Regions of megabytes set to one word (what clearing an allocation
+    does), on controllers made with all sorts of timeouts; reads straddling
+    the ends of the filled range afterwards."""
+    MiB = 1 << 20
+    ops = []
+    for _ in range(rng.randint(1, 3)):
+        n = rng.choice([MiB, 2 * MiB, 4 * MiB + 4, 8 * MiB, 16 * MiB - 4,
+                        4 * rng.randint(MiB // 16, 6 * MiB),
+                        4 * rng.randint(16384, MiB // 4)])
+        addr = 0x60000000 + 4 * rng.randrange(1 << 18)
+        val = rng.choice([0, 0xffffffff, 0xdeadbeef, rng.getrandbits(32)])
+        ops.append(("fill", 0, 0, 0, addr, val, n))
+        for edge in (addr - 6, addr + n - 9, addr + rng.randrange(n) & ~3):
+            ops.append(("read", 0, 0, 0, edge, rng.choice([16, 40, 300]), 1))
+    return dict(w=1, h=1, buf=rng.choice([256, 256, 128, 512]), window=1,
+                ops=ops, faults=None, seed_mem=4 * rng.randrange(1 << 20) + 1,
+                timeout=rng.choice([0.05, 0.07, 0.1, 0.3, 0.5, 1.0, 2.5,
+                                    round(rng.uniform(0.02, 3.0), 3)]))
+
+
 def gen(cls, idx, rng, tier):
+    if cls == "bigfill":
+        return gen_bigfill(rng)
     b = rng.choice(BUFS) if cls == "buffers" or rng.random() < .5 else \
         rng.choice([rng.randint(16, 600), 256])
     w, h = rng.choice([(1, 1), (2, 2), (3, 2)])
@@ -202,7 +226,9 @@ def run(case, ctx):
         ctx.hit("real_socket_case")
     else:
         plan = fault_plan(case["faults"]) if case["faults"] else None
-        r = M.Rig(m, plan=plan, timeout=0.5, n_tries=5)
+        r = M.Rig(m, plan=plan, timeout=case.get("timeout", 0.5), n_tries=5)
+        if "timeout" in case:
+            ctx.hit("controller_with_own_timeout")
         if case["seed_mem"] % 3 == 0:
             # a slow host: the library's own statements take time (every
             # reading of the clock costs a fraction of a millisecond), so
@@ -358,6 +384,7 @@ def run_ops(case, ctx, m, r, plan, real):
             unaligned += 1
         before = {xy: dict(c.mem) for xy, c in m.chips.items()} \
             if target else None
+        fills0 = {xy: len(c.big_fills) for xy, c in m.chips.items()}
         want_read = (m.chips[expect_read[0]].rd(expect_read[1],
                                                 expect_read[2])
                      if expect_read else None)
@@ -430,6 +457,14 @@ def run_ops(case, ctx, m, r, plan, real):
                       (xy, a, a + ln,
                        "none" if target is None else "chip %r [%#x, %#x)" %
                        (target[0], target[1], target[1] + len(target[2]))),
+                      **where)
+        for xy, c in m.chips.items():
+            for s_, e_, _ in c.big_fills[fills0[xy]:]:
+                ctx.hit("megabyte_fill")
+                check(target is not None and xy == target[0] and
+                      target[1] <= s_ and e_ <= target[1] + len(target[2]),
+                      "write-outside-requested-range",
+                      "chip %r bytes [%#x, %#x) filled" % (xy, s_, e_),
                       **where)
         if failed is not None:
             # too many losses: documented failure; memory inside the range
